@@ -5,7 +5,7 @@
   `image c N data = hdr c N ++ data` is the closed file of N frames whose encoded audio is `data`;
   `openW / step / close` is the write session (w64_open, the write call's bookkeeping, header updates, w64_close).
 -/
-import SfProofs.W64Image
+import SfProofs.W64Session
 namespace Sf.C04W64
 open Sf Sf.W64 Sf.CafW64
 
@@ -69,5 +69,45 @@ example : parse (image { codec := 0x10, ch := 1, sr := 8000 } 3 [1, 2, 3]) =
       .ok { fmtWord := 0x0B0010, ch := 1, sr := 8000, frames := 3, dataoffset := 136, datalength := 3 } := by decide +kernel
 example : parse (image { codec := 0x10, ch := 1, sr := 8000 } 3 [1, 2, 3] ++ [9, 9]) =
       .ok { fmtWord := 0x0B0010, ch := 1, sr := 8000, frames := 5, dataoffset := 136, datalength := 5 } := by decide +kernel
+
+/-! ### the write session: stale frames, crash points -/
+
+/-- `stale_frames_ignored` for W64 (sample-granular encodings): whatever SF_INFO.frames held at open, and however the
+    frames were split over write calls and interleaved with header updates, the closed file is `image c N data` — an
+    expression in which the stale value does not occur.  (w64_open does NOT clear sf.frames: the value reaches the
+    header written at open — see `w64_open_header_shows_stale_frames` — but every later header is written from
+    recomputed lengths.  For the block codecs the stale value survives: KF-W64-STALE-FRAMES, outside this model.) -/
+theorem stale_frames_ignored_w64 (c : Cfg) (hwf : c.wf) (stale : Int) (ops : List Op) (hv : ∀ op ∈ ops, op.valid c) :
+    (close c (run c (openW c stale) ops)).bytes = image c (sessFrames ops) (sessData ops) := by
+  have i := run_inv (wf_bw_pos hwf) ops (openW_inv c stale) hv
+  have := (writeHeader_inv i (wf_bw_pos hwf) true).2.1 rfl
+  simpa [close, image, tail] using this
+
+/-- the witness that the caller's value is not ignored everywhere: the 'fact' chunk of the header written by sf_open
+    holds it until the first header update (a crash before that leaves it on disk) -/
+theorem w64_open_header_shows_stale_frames :
+    ofLE (((openW { codec := 0x06, ch := 1, sr := 8000 } 99999).bytes.drop 104).take 8) = 99999 ∧
+    (openW { codec := 0x06, ch := 1, sr := 8000 } 99999).bytes ≠ (openW { codec := 0x06, ch := 1, sr := 8000 } 0).bytes := by
+  decide +kernel
+
+/-- C11 `snapshot_valid` for W64: when SFC_UPDATE_HEADER_NOW returns, the store is byte for byte the closed file of the
+    frames written so far (there is no tailer) — so everything proved about `image` holds for the crash-point copy -/
+theorem snapshot_valid_w64 (c : Cfg) (hwf : c.wf) (stale : Int) (ops : List Op) (hv : ∀ op ∈ ops, op.valid c) :
+    (step c (run c (openW c stale) ops) .update).bytes = image c (sessFrames ops) (sessData ops) := by
+  have i := run_inv (wf_bw_pos hwf) ops (openW_inv c stale) hv
+  have := (writeHeader_inv i (wf_bw_pos hwf) true).2.1 rfl
+  simpa [step, image, tail] using this
+
+/-- …and in auto mode every write call that transferred something ends in such a crash point -/
+theorem auto_write_is_snapshot_w64 (c : Cfg) (hwf : c.wf) (stale : Int) (ops : List Op) (hv : ∀ op ∈ ops, op.valid c)
+    (k : Nat) (data : List Byte) (hk : k ≠ 0) (hd : data.length = k * c.bw) (hauto : (run c (openW c stale) ops).auto = true) :
+    (step c (run c (openW c stale) ops) (.write k data)).bytes = image c (sessFrames ops + k) (sessData ops ++ data) := by
+  have i := run_inv (wf_bw_pos hwf) ops (openW_inv c stale) hv
+  have := step_write_auto i (wf_bw_pos hwf) k data hk hd hauto
+  simpa [image, tail] using this
+
+example : ({ codec := 0x10, ch := 1, sr := 8000 } : Cfg).wf ∧ (∀ op ∈ [Op.write 2 [1, 2], .update, .auto true, .write 1 [3]], op.valid { codec := 0x10, ch := 1, sr := 8000 }) ∧
+    (close { codec := 0x10, ch := 1, sr := 8000 } (run { codec := 0x10, ch := 1, sr := 8000 } (openW { codec := 0x10, ch := 1, sr := 8000 } 77) [Op.write 2 [1, 2], .update, .auto true, .write 1 [3]])).bytes =
+      image { codec := 0x10, ch := 1, sr := 8000 } 3 [1, 2, 3] := by decide +kernel
 
 end Sf.C04W64
